@@ -42,8 +42,8 @@ def run(chk, tier):
     chk.setcov("exhaustive", thorough)
     if tot["covered"] + tot["lost_to_known"] < tot["mine"] and not chk.violations:
         raise Inconclusive("Buf: %d of %d assigned edges not replayed" % (tot["mine"] - tot["covered"], tot["mine"]))
-    chk.setcov("rule", "every transition of Buf.tla within 2 operations of the initial contents (11 views of 8 element kinds over one 8-byte "
-               "Go-supplied buffer + a DataView; get/put/fill/copyWithin/reverse/sort/slice/subarray/set from view and array/filter/Array.from, "
+    chk.setcov("rule", "every transition of Buf.tla within 2 operations of the initial contents (12 views of 8 element kinds over one 8-byte "
+               "Go-supplied buffer + a DataView; get/put/fill/copyWithin/reverse/sort/slice (also into an existing view through a species constructor)/subarray/set from view and array/filter/Array.from, "
                "DataView 8/16-bit accessors at every offset and endianness, ArrayBuffer.slice, detach, and 22 operations during which a callback or "
                "argument coercion detaches the buffer) replayed on the real engine; compared: result, all bytes through Go's Bytes(), guard bytes, "
                "each view's window; the ptr() bounds monitor panics before any out-of-buffer access")
